@@ -230,7 +230,15 @@ where
         let mut chooser_state = chooser.new_state(seed);
 
         let mut state = {
-            let mut initial_states = model.init_states();
+            // As in the other checkers, a path cannot start outside the boundary.
+            let mut initial_states: Vec<_> = model
+                .init_states()
+                .into_iter()
+                .filter(|s| model.within_boundary(s))
+                .collect();
+            if initial_states.is_empty() {
+                return;
+            }
             let index = chooser.choose_initial_state(&mut chooser_state, &initial_states);
             initial_states.swap_remove(index)
         };
@@ -279,8 +287,9 @@ where
 
             // Skip if outside boundary.
             if !model.within_boundary(&state) {
+                // Unreachable: initial states and successors (see below) are filtered.
                 log::trace!("Found state outside of boundary");
-                break;
+                return;
             }
 
             // add the current fingerprint to the path
@@ -381,6 +390,10 @@ where
                     None => {
                         // this action was ignored, try and choose another
                         log::trace!("No next state");
+                    }
+                    Some(next_state) if !model.within_boundary(&next_state) => {
+                        // outside the boundary, so not a successor: try and choose another
+                        log::trace!("Next state outside of boundary");
                     }
                     Some(next_state) => {
                         // now clear the actions for the next round
